@@ -1044,7 +1044,7 @@ Proof.
   - (* Tick *) simpl. destruct (0 <=? dt); [|exact HP]. now apply (PInv_ext w).
   - (* Notify *) now apply (PInv_ext w).
   - (* MuEnv *) simpl. destruct (match mspin w with Some _ => _ | None => true end); [|exact HP]. now apply (PInv_ext w).
-  - (* MuDeq *) simpl. destruct (mem_id r (muq w)) eqn:Hm; [|exact HP]. apply mem_id_In in Hm.
+  - (* MuDeq *) simpl. destruct (mspin w) as [?|]; [exact HP|]. destruct (mem_id r (muq w)) eqn:Hm; [|exact HP]. apply mem_id_In in Hm.
     pose proof HP as ((_ & _ & _ & Q3 & _) & _). destruct (Q3 r Hm) as (A & B).
     apply (PInv_env_rec w _ r (r_set_loc (r_set_rcount (recs w r) (wrap_u 32 (rcount (recs w r) + 1))) PMwake) HP HS);
       [intros; reflexivity | reflexivity | reflexivity | reflexivity | reflexivity | reflexivity | reflexivity | exact B | exact B
